@@ -22,11 +22,13 @@ class ZeroLike:
     mode = 'rb'
     BLOCK = 65536
 
-    def __init__(self, size, seed=1):
-        self.size, self.pos, self.seed = size, 0, seed
+    def __init__(self, size, seed=1, constant=False):
+        self.size, self.pos, self.seed, self.constant = size, 0, seed, constant
         self._cache = (None, b'')
 
     def _block(self, i):
+        if self.constant:  # deflates to ~0.1 %: the inflated side of a stream decompresser is what must stay bounded
+            return b'Z' * self.BLOCK
         if self._cache[0] != i:
             import random  # pylint: disable=import-outside-toplevel
 
@@ -69,6 +71,8 @@ def probe_cases(ctx):
     for path in ('add_streamed', 'pack:no', 'pack:yes', 'repack:keep', 'repack:yes', 'repack:no', 'validate', 'read:plain',
                  'read:compressed', 'import:streamed', 'direct:no', 'direct:yes', 'loosen'):
         out.append({'kind': 'memory', 'path': path, 'sizes': sizes})
+    for path in ('read:compressed', 'validate', 'repack:no', 'import:streamed', 'loosen', 'pack:yes'):
+        out.append({'kind': 'memory', 'path': path, 'sizes': sizes, 'constant': True})  # highly compressible content
     return out
 
 
@@ -269,10 +273,10 @@ def _memory(case, base):  # noqa: C901
         cont = _container(base, name=f'c{size}')
 
         def prep_loose():
-            return cont.add_streamed_object(ZeroLike(size))
+            return cont.add_streamed_object(ZeroLike(size, constant=case.get('constant', False)))
 
         def prep_packed(compress):
-            return cont.add_streamed_object_to_pack(ZeroLike(size), compress=compress)
+            return cont.add_streamed_object_to_pack(ZeroLike(size, constant=case.get('constant', False)), compress=compress)
 
         if path == 'add_streamed':
             fn = prep_loose
@@ -318,8 +322,10 @@ def _memory(case, base):  # noqa: C901
         common.rmtree(os.path.join(base, f'dst{size}'))
     small, big = min(peaks), max(peaks)
     if peaks[big] > PEAK_LIMIT:
-        probs.append((f'memory:peak:{path}', f'{path}: tracemalloc peak {peaks[big]} bytes for a {big >> 20} MiB object (> {PEAK_LIMIT >> 20} MiB)'))
+        probs.append((f'memory:peak:{path}', f'{path}{" (highly compressible content)" if case.get("constant") else ""}: tracemalloc peak {peaks[big]} bytes for a {big >> 20} MiB object (> {PEAK_LIMIT >> 20} MiB)'))
     if peaks[big] - peaks[small] > GROWTH_LIMIT:
-        probs.append((f'memory:growth:{path}', f'{path}: peak grows from {peaks[small]} ({small >> 20} MiB object) to {peaks[big]} '
+        probs.append((f'memory:growth:{path}', f'{path}{" (highly compressible content)" if case.get("constant") else ""}: peak grows from {peaks[small]} ({small >> 20} MiB object) to {peaks[big]} '
                                                f'({big >> 20} MiB object)'))
-    return probs, counters, {'probe': 'memory', 'path': path, 'peaks_bytes': {f'{k >> 20}MiB': v for k, v in peaks.items()}}
+    if case.get('constant'):
+        counters['memory-probes-highly-compressible'] += len(peaks)
+    return probs, counters, {'probe': 'memory', 'path': path, 'content': 'constant' if case.get('constant') else '3/4 random', 'peaks_bytes': {f'{k >> 20}MiB': v for k, v in peaks.items()}}
